@@ -17,7 +17,7 @@ RULE = ("Seeded histories on one SNMPv3 client (3-25 steps): request (get, multi
         "security levels; separately faults of the FIRST discovery exchange (foreign msgID, no bindings, wrong PDU type, reply lost); "
         "after a lost or refused reply the history goes on: the next request must start with a discovery probe again and from "
         "then on everything holds as for a fresh client (a client that repeats a lost probe by itself is equally fine; a lost reply "
-        "may only surface as Timeout); the client may be switched to SNMPv2c credentials and back (configure), immediately or "
+        "may only surface as Timeout; the caller may also abandon its first request (wait_for) while the probe is in flight); the client may be switched to SNMPv2c credentials and back (configure), immediately or "
         "after 200 s / 1 h. Oracle: first datagram "
         "is the RFC 3414 section 4 probe, later requests carry the discovered engine id (security and default context engine "
         "id); a foreign-msgID reply is refused and nothing with credentials follows; in a history without discontinuity the "
@@ -32,7 +32,7 @@ ASSUMPTIONS = [
     "on purpose); a request is required to succeed only if the drift accumulated since the client last heard from the agent "
     "is below 140 s - beyond that no client can be in time and bounded recovery is required instead",
 ]
-PROBES = ["other_family_and_back", "rediscovery_after_failed_discovery", "disco_lost", "passes_150s", "passes_days", "reboot", "clock_step", "slow_agent", "recovered_after_discontinuity",
+PROBES = ["disco_cancelled", "other_family_and_back", "rediscovery_after_failed_discovery", "disco_lost", "passes_150s", "passes_days", "reboot", "clock_step", "slow_agent", "recovered_after_discontinuity",
           "failed_right_after_discontinuity", "disco_foreign_msgid", "disco_no_bindings", "disco_wrong_pdu", "level_auth",
           "level_priv", "configured_context_engine", "drift_within_window", "drift_beyond_window", "slow_agent_clock",
           "fast_agent_clock", "discovery_without_timing", "old_response_replayed"]
@@ -40,7 +40,7 @@ shrink_lists = [("steps",)]
 BASE = (1, 3, 6, 1, 2, 1, 7)
 DELTAS = [1, 30, 149, 150, 151, 600, 3600, 86400, 30 * 86400]
 OPS = ["get", "get", "multiget", "getnext", "set", "bulkget", "walk"]
-DISCO_FAULTS = ["foreign_msgid", "no_bindings", "wrong_pdu", "lost", "lost", "foreign_msgid"]
+DISCO_FAULTS = ["foreign_msgid", "no_bindings", "wrong_pdu", "lost", "lost", "foreign_msgid", "cancelled", "cancelled"]
 
 
 def total(tier: str) -> int:
@@ -125,7 +125,16 @@ def execute(plan: dict) -> dict:
     rate = float(plan.get("rate", 1.0))
     agent.rate = rate   # Reports may echo the request's context engine id (RFC 3412 7.1)
     slow = {"s": 0}
-    agent.delay_for = lambda req: 0 if req.get("discovery") else slow["s"] * 1024
+    first_disco = {"pending": plan.get("disco_fault") == "cancelled"}
+
+    def delay_for(req: dict) -> int:
+        if req.get("discovery"):
+            if first_disco["pending"]:
+                first_disco["pending"] = False
+                return 2048        # the reply to the first probe is 2 s away; the caller gives up after 0.5 s
+            return 0
+        return slow["s"] * 1024
+    agent.delay_for = delay_for
     fault = plan.get("disco_fault")
     fault_state = {"fired": False}
     if fault == "lost":
@@ -252,12 +261,23 @@ def execute(plan: dict) -> dict:
                 pending = True
                 probes["drift_beyond_window"] = 1
 
+        give_up = fault == "cancelled" and nreq == 0
+
         async def one() -> Any:
+            if give_up:
+                # the caller abandons its first request while the discovery exchange is still in flight
+                return await asyncio.wait_for(scen.do_op(client, op), 0.5)
             return await scen.do_op(client, op)
         try:
             res = w.run(one())
+        except asyncio.CancelledError as e:      # a cancellation nobody asked for is an outcome to be judged, not a harness error
+            exc = e
         except Exception as e:  # noqa: BLE001
             exc = e
+        if give_up:
+            async def late_reply() -> None:
+                await asyncio.sleep(3)               # the late discovery reply arrives at a socket that is gone
+            w.run(late_reply())
         slow["s"] = 0
         nreq += 1
         new = agent.requests[before:]
@@ -301,6 +321,11 @@ def execute(plan: dict) -> dict:
                     fail("raised:" + excname, "the reply to the first discovery probe was lost; the request ended in %s: %s" % (excname, exc))
                 if any(not r.get("discovery") for r in new):
                     fail("request-after-bad-discovery", "a request with credentials followed the failed discovery exchange")
+            if fault == "cancelled":
+                if excname not in ("TimeoutError", "CancelledError"):
+                    fail("raised:%s" % excname, "the caller gave up during discovery; the abandoned call ended with %s" % (excname or "a result"))
+                rediscover = True
+                continue
             if fault == "foreign_msgid" or (fault == "lost" and exc is not None):
                 rediscover = True
                 continue
